@@ -104,6 +104,9 @@ func (c *Client) validateVirtualChannelSettlementProposal(
 	if prop.Final.Params.ID() != prop.Final.State.ID {
 		return errors.New("invalid parameters")
 	}
+	if prop.Final.State.NumParts() != len(prop.Final.Params.Parts) {
+		return errors.New("state does not match number of participants")
+	}
 
 	// Validate signatures.
 	if len(prop.Final.Sigs) != len(prop.Final.Params.Parts) {
